@@ -333,7 +333,7 @@ fn method_chain(t: &Tm) -> (Tm, Vec<(String, Vec<Tm>)>) {
     (cur, calls)
 }
 fn stringify_arg(t: &Tm) -> Option<String> {
-    match t { Tm::Call { path, args, .. } if ends(path, "stringify!") && args.len() == 1 => match &args[0] { Tm::Path(p) => Some(p.clone()), _ => None }, Tm::Lit(l) => Some(l.trim_matches('"').to_string()), _ => None }
+    match t { Tm::Call { path, args, .. } if ends(path, "stringify!") && args.len() == 1 => match &args[0] { Tm::Path(p) => Some(p.clone()), _ => None }, Tm::Lit(l) => Some(l.trim_matches('"').trim_start_matches("raw:").to_string()), _ => None }
 }
 
 fn check_debug_chain(rep: &mut Report, inst: &Instance, label: &str, site: &str, cs: &str, expr: &Tm, named: bool, name_leaf_ok: &dyn Fn(&str) -> bool, fields: &[(usize, bool)], transparent: Option<usize>, v: Option<usize>, self_side_binder: bool) {
